@@ -156,7 +156,7 @@ def ob_skeleton(k):
         kind = choose(4, 'q')
         lit = ["'''" + body + "'''", "f'''" + body + "'''", None, None][kind]
         if lit is None:
-            b2 = sym_str(choose(3, 'b2l'), 'c', alphabet='a @\\n')
+            b2 = sym_str(choose(3, 'b2l'), 'c', alphabet='a @\\n\n')        # incl. a RAW newline inside '...' / f'...' (deprecated but accepted: positions must still add up)
             lit = ("'" if kind == 2 else "f'") + b2 + "'"
         ws = ['', ' ', ' \\\n ', ' # c\n '][choose(4, 'ws')]
         tmpl = [lambda: 'x = f(' + lit + ws + ', [1,' + ws + ' g(2)])\n',
